@@ -374,7 +374,21 @@ fn run_history(disk: &[usize], steps: &[Step], located_only: Option<&'static str
                 let src = crate::drive::pipeline::Sources {
                     files: (0..4).filter(|f| texts[*f] != ABSENT).map(|f| (FILES[f].to_owned(), texts[f].clone())).collect(),
                 };
-                if let Some(exp) = super::common::error_location(&src) {
+                // import strings with URL syntax in them (`#`, `?`, `%`, blanks, line breaks) resolve differently on a
+                // file system (fragment and query are ignored) and in the in-memory loader: not judged
+                let weird_import = texts.iter().any(|t| {
+                    t.match_indices("use").any(|(i, _)| {
+                        let rest = t[i + 3..].trim_start();
+                        rest.starts_with('"')
+                            && rest[1..]
+                                .split('"')
+                                .next()
+                                .map_or(true, |p| !p.chars().all(|c| c.is_ascii_alphanumeric() || "._/-".contains(c)))
+                    })
+                });
+                if weird_import {
+                    st.inc("located_oracle_skipped_import_string_with_url_syntax");
+                } else if let Some(exp) = super::common::error_location(&src) {
                     st.inc("located_errors_checked");
                     let uri_of = |file: &str| file_uri(&dir.path.join(file));
                     let text_of = |file: &str| FILES.iter().position(|n| *n == file).map(|f| texts[f].clone());
